@@ -700,6 +700,9 @@ class _function(object):
             if len(self._constant) != 1 or self._constant[0]:
                 # skip if self._constant is zero
                 f._constant = self._constant*other
+            elif other.size != (1,1):
+                # keep the length of the product if self is zero
+                f._constant = matrix(0.0, (other.size[0],1))
 
             if self._linear._coeff: 
                 # skip if self._linear is zero
@@ -756,6 +759,9 @@ class _function(object):
                     f._constant = other * self._constant[lg*[0]]
                 else:
                     f._constant = other * self._constant
+            elif other.size != (1,1):
+                # keep the length of the product if self is zero
+                f._constant = matrix(0.0, (other.size[0],1))
             
             if self._linear._coeff:
                 if 1 == len(self._linear) != lg and \
